@@ -232,17 +232,21 @@ def oracle_rqa(case, rec):
             if okc:
                 rec.close(v, fn(hist, lmin), name + "_formula",
                           detail="min=%d" % lmin, **tol)
-        okc, s = rec.call("rqa_summary", rp.rqa_summary, lmin, lmin)
-        if okc:
-            want = {"RR": ones / float(n * n) if n else float("nan"),
-                    "DET": rqa.points_ratio(hd, lmin),
-                    "L": rqa.average_length(hd, lmin),
-                    "LAM": rqa.points_ratio(hv, lmin)}
-            rec.check(sorted(s) == sorted(want), "rqa_summary_keys", str(s))
-            for k in want:
-                if k in s:
-                    rec.close(s[k], want[k], "rqa_summary_" + k,
-                              detail="min=%d" % lmin, **tol)
+        # the two minimal lengths of the summary are independent arguments
+        for vmin in (lmin, (lmin % 5) + 1):
+            okc, s = rec.call("rqa_summary", rp.rqa_summary, lmin, vmin)
+            if okc:
+                want = {"RR": ones / float(n * n) if n else float("nan"),
+                        "DET": rqa.points_ratio(hd, lmin),
+                        "L": rqa.average_length(hd, lmin),
+                        "LAM": rqa.points_ratio(hv, vmin)}
+                rec.check(sorted(s) == sorted(want), "rqa_summary_keys",
+                          str(s))
+                for k in want:
+                    if k in s:
+                        rec.close(s[k], want[k], "rqa_summary_" + k + (
+                            "" if vmin == lmin else "_vmin_differs"),
+                            detail="l_min=%d v_min=%d" % (lmin, vmin), **tol)
     # defaults: l_min = v_min = 2, w_min = 1 (documented signature)
     for name, hist, fn, dflt in (
             ("determinism", hd, rqa.points_ratio, 2),
